@@ -1,26 +1,7 @@
-import Prom.Model.Conc
-/-
-C10 — Concurrent use of a metric vector is linearizable.
+import Prom.Lemmas.C10Aux
 
-Subject: the step machine `Conc.vStep` over the critical sections of the children lock (read lock /
-unlock, write lock / unlock), child creation and updates through handles. Any list of accepted
-items is a run: any number of threads, programs and interleavings. Each operation takes effect inside
-its last critical section (the lookup of a hit, the insert/remove/clear under the write lock, the
-reads of a collect under the read lock), i.e. at a step of the operation itself.
--/
 namespace Prom.C10
 open Prom Prom.Conc
-
-/-- keys pairwise distinct, child ids in range -/
-def VInv (s : VSt) : Prop :=
-  (s.children.map (·.1)).Nodup ∧ ∀ p ∈ s.children, p.2 < s.vals.length
-
-theorem vLookup_none {s : VSt} {k : String} (h : vLookup s k = none) : ∀ p ∈ s.children, p.1 ≠ k := by
-  unfold vLookup at h
-  simp [List.find?_eq_none] at h
-  intro p hp e
-  exact h p.1 p.2 hp e
-
 /-- the write-lock step of a get-or-create after a miss: the key is looked up AGAIN; if another
     thread inserted it meanwhile its child is returned and nothing is inserted; otherwise a fresh
     child (new id, value 0) is inserted — in both cases keys stay pairwise distinct -/
